@@ -687,7 +687,7 @@ func main() {
 		{"wire/read_context.go", "countingReader.ReadByte"}, {"wire/read_context.go", "countingReader.Read"}, {"wire/read_context.go", "discardByRead"}, {"wire/read_context.go", "ReadContext.ExpectMagic"},
 		{"wire/write_context.go", "WriteContext.WriteMessage"}, {"pwr/compression.go", "DecompressWire"}, {"pwr/compression.go", "CompressWire"},
 		{"archiver/zip.go", "ExtractZip"}, {"archiver/zip.go", "CompressZip"}, {"archiver/archiver.go", "Mkdir"}, {"archiver/archiver.go", "Symlink"}, {"archiver/archiver.go", "CopyFile"},
-		{"archiver/tar.go", "ExtractTar"}, {"archiver/tar.go", "CompressTar"},
+		{"archiver/tar.go", "ExtractTar"}, {"archiver/tar.go", "CompressTar"}, {"archiver/containerarchiver/zip.go", "CompressZip"},
 		{"multiread/multiread.go", "multiread.Do"}, {"taskgroup/taskgroup.go", "Do"}, {"ctxcopy/ctxcopy.go", "DoBuffer"},
 	}
 	facts := map[string]interface{}{}
